@@ -22,7 +22,7 @@ VERIFICATION_FAILURE_PATTERNS = [
     'decreases not satisfied', 'could not prove termination', 'possible bit shift underflow/overflow',
     'loop invariant not satisfied', 'failed precondition', 'failed this postcondition',
     'constructed value may fail to meet its declared type invariant',
-    'unable to prove', 'cannot show invariant', 'might fail', 'bit-vector assertion', 'assertion not satisfied',
+    'requires not satisfied', 'unable to prove', 'cannot show invariant', 'might fail', 'bit-vector assertion', 'assertion not satisfied',
 ]
 RLIMIT_PATTERNS = ['rlimit', 'resource limit', 'timed out', 'timeout']
 
@@ -255,11 +255,23 @@ def verify_unit(unit, digit, mode, canary=False, use_cache=True):
             return json.load(open(cpath))
         except Exception:
             pass
-    x = load_expansion(mode)
-    ov = load_overlay()
-    g = Generator(x, ov, digit, mode)
-    g.build_items()
+    g = get_generator(digit, mode)
     text, linemap = g.render(unit, canary=canary)
+    # second-level cache keyed by the generated text: a change in /repo that does not reach this
+    # unit's generated file (its own bodies and the signatures/contracts of its stubs) re-uses the result
+    chash = sha(text, json.dumps(g.problems, default=str), open(os.path.abspath(__file__), 'rb').read())
+    cdir2 = os.path.join(BUILD, 'cache', 'by_content')
+    os.makedirs(cdir2, exist_ok=True)
+    cpath2 = os.path.join(cdir2, f'{tag}_{chash[:24]}.json')
+    if use_cache and os.path.exists(cpath2):
+        try:
+            out = json.load(open(cpath2))
+            tmp = cpath + '.tmp%d' % os.getpid()
+            json.dump(out, open(tmp, 'w'))
+            os.replace(tmp, cpath)
+            return out
+        except Exception:
+            pass
     vdir = os.path.join(BUILD, 'verus')
     os.makedirs(vdir, exist_ok=True)
     path = os.path.join(vdir, tag + '.rs')
@@ -286,10 +298,13 @@ def verify_unit(unit, digit, mode, canary=False, use_cache=True):
         if d['level'] != 'error':
             continue
         it = item_at(d['line'])
-        if it is None:
+        if it is None or it.kind in ('raw', 'spec'):
+            # e.g. a failing postcondition of a trait impl method is reported at the `ensures` of the
+            # trait declaration (a raw item); the function is named by a secondary span
             for l in d['all_lines']:
-                it = item_at(l)
-                if it is not None:
+                it2 = item_at(l)
+                if it2 is not None and it2.kind not in ('raw', 'spec'):
+                    it = it2
                     break
         cls = classify(d['message'])
         rec = dict(item=it.key if it else None, unit=it.entry.unit if it else None, message=d['message'], cls=cls, line=d['line'], rendered=d['rendered'], labels=d['labels'])
@@ -330,10 +345,26 @@ def verify_unit(unit, digit, mode, canary=False, use_cache=True):
                other_errors=others[:10], unattributed_failures=[f for f in failures if f['item'] is None or f['item'] not in {i.key for i in own}][:10],
                stubs=stubs_used, assumed=assumed_keys, stderr_tail=res.get('stderr_tail', ''),
                n_lines=text.count('\n'))
-    tmp = cpath + '.tmp%d' % os.getpid()
-    json.dump(out, open(tmp, 'w'))
-    os.replace(tmp, cpath)
+    for cp in (cpath, cpath2):
+        tmp = cp + '.tmp%d' % os.getpid()
+        json.dump(out, open(tmp, 'w'))
+        os.replace(tmp, cp)
     return out
+
+
+_gen_cache = {}
+_gen_lock = __import__('threading').Lock()
+
+
+def get_generator(digit, mode):
+    """one Generator (all overlay items transplanted onto the current expansion) per digit tag and mode"""
+    with _gen_lock:
+        k = (digit, mode)
+        if k not in _gen_cache:
+            g = Generator(load_expansion(mode), load_overlay(), digit, mode)
+            g.build_items()
+            _gen_cache[k] = g
+        return _gen_cache[k]
 
 
 def _fn_matches(fn, it, crate):
